@@ -285,7 +285,7 @@ func (g G) planMix(prop string, o *mixOpts) *Plan {
 			if g.chance(lab+".moveapp", 30) {
 				p.Steps = append(p.Steps, Step{K: "mutate", Mut: "moveApp", A: g.intn(lab+".sp", 4), B: g.intn(lab+".sp2", 4)})
 			} else {
-				p.Steps = append(p.Steps, Step{K: "mutate", Mut: "reregister", A: g.intn(lab+".sp", 4), B: g.intn(lab+".how", 7)})
+				p.Steps = append(p.Steps, Step{K: "mutate", Mut: "reregister", A: g.intn(lab+".sp", 4), B: g.intn(lab+".how", 8)})
 			}
 		case 19:
 			p.Steps = append(p.Steps, Step{K: "mutate", Mut: "deleteSP", A: g.intn(lab+".sp", 4)})
